@@ -86,6 +86,12 @@ func hist2Run(focus string) func(t *testing.T, p hist2Plan) vfResult {
 					w.adopt(nr)
 					r = nr
 					synctest.Wait()
+					// the restarted proxy builds its rollout targets with the service options in force now
+					for _, s := range m.Svcs {
+						if s.Rollout != nil {
+							s.RolloutOpt = s.Opt
+						}
+					}
 				}
 			}
 			synctest.Wait()
